@@ -257,9 +257,12 @@ impl Family for Driver {
                     std::fs::write(dir.join(format!("gen{i}.json")), sc.to_string()).unwrap();
                 }
             }
-            let args = vec![("id".to_owned(), i.to_string()), ("mode".to_owned(), format!("m {i}")), ("flag".to_owned(), String::new())];
+            // the last pair is written twice in a row: a generator receives the pairs that were written, not a set of them
+            // (seeded change C18-s12: `dedup()` before the arguments are encoded)
+            let args = vec![("id".to_owned(), i.to_string()), ("mode".to_owned(), format!("m {i}")), ("flag".to_owned(), String::new()),
+                            ("rep".to_owned(), "r".to_owned()), ("rep".to_owned(), "r".to_owned())];
             argv.push("-G".into());
-            argv.push(format!("{},id={i},mode = m {i} ,flag", path.display()));
+            argv.push(format!("{},id={i},mode = m {i} ,flag,rep=r,rep=r", path.display()));
             gen_args.push(args);
             // pre-existing files of generators that produce files
             if matches!(outdir, "identical" | "different" | "longer" | "shorter") && matches!(beh.as_str(), "ok1" | "ok2" | "okinfo" | "okwarn" | "oksource" | "okshort" | "okwide") {
